@@ -61,3 +61,22 @@ package pruner
 //@ func storeCheckpoint
 //@   property C14
 //@   requires c != nil
+
+// The checkpoint is shared between the pruning cycle, the on-delete handler and Stop, under
+// checkpointMu. Whatever a goroutine finds when it takes the lock is what the others left there - they
+// only ever move the last-pruned height forward (rely) - and every critical section must itself leave a
+// last-pruned height that is not below the one it found (guarantee, checked at each release). A height
+// compared under an earlier hold of the lock says nothing about the value found under a later one.
+//@ guards Service.checkpointMu checkpoint rely after.LastPrunedHeight >= before.LastPrunedHeight
+
+//@ func (*Service).loadCheckpoint
+//@   property C14
+//@   trusted
+//@   modifies s
+//@   ensures err == nil ==> s.checkpoint != nil
+//@   ensures old(s.checkpoint) != nil ==> s.checkpoint == old(s.checkpoint) && deref(s.checkpoint) == old(deref(s.checkpoint))
+
+//@ func (*Service).pruneOnHeaderDelete
+//@   property C14
+//@   noframe
+//@   requires s != nil && s.checkpoint != nil
